@@ -71,7 +71,7 @@ class World:
                 continue
             if k.startswith("N:") and (k[2:] == name or k[2:].startswith(name + ".") or k[2:].startswith(name + "[")):
                 continue
-            if k.startswith("?") and pat.search(k):
+            if k.startswith("?") and pat.search(re.sub(r"'[^']*'|\"[^\"]*\"", "''", k)):
                 # the test was decided on the old value: keep it as a control-dependence fact ("passed through")
                 if not k.startswith("?was:"):
                     nd["?was:" + k[1:]] = v
